@@ -158,7 +158,7 @@ fn mem_data() -> Vec<DataDef> {
 }
 
 const LENS: [u32; 10] = [0, 1, 2, 15, 16, 17, 31, 32, 33, 64];
-const STARTS: [u32; 8] = [0, 1, 0x3EF, 0x3F0, 0x400, 0xFFFEF, 0xFFFF0, 0xFFFFF];
+const STARTS: [u32; 10] = [0, 1, 0x3EF, 0x3F0, 0, 0x400, 0xFFFEF, 0xFFFF0, 0xFFFFF, 0x10000];
 
 fn mem_cases(thorough: bool) -> Vec<Case> {
     let mut v = Vec::new();
@@ -170,6 +170,11 @@ fn mem_cases(thorough: bool) -> Vec<Case> {
             // memory written by instructions as well as by definitions
             code.push(mov(direct(W::W, 0x0004), imm(0xBEEF)));
             code.push(mov(direct(W::B, 0x03F1), imm(0x77)));
+            // absolute ranges do not depend on DS: every second run prints under DS=0x1000
+            if si % 2 == 0 {
+                code.push(mov(r16("ax"), imm(0x1000)));
+                code.push(mov(sr("ds"), r16("ax")));
+            }
             for s in chunk {
                 for n in LENS.iter() {
                     if s + n >= MB {
@@ -217,6 +222,17 @@ fn mem_cases(thorough: bool) -> Vec<Case> {
         for sp in spellings.iter() {
             v.push(Case { site: "print mem : n".into(), prog: prog.clone(), spelling: *sp, stdin: vec![], interpreted: false, note: format!("DS=0x{:04X}", ds) });
         }
+        // more than 64 KiB in one statement: the range does not wrap inside the segment (one run per DS, about
+        // 260 KB of output; memory 64 KiB further on differs from the start of the segment)
+        if (ds as u32) * 16 + 0x10040 < MB {
+            let mut code = vec![label("start")];
+            code.push(mov(r16("ax"), imm(ds as i32)));
+            code.push(mov(sr("ds"), r16("ax")));
+            code.push(mov(direct(W::W, 0x0008), imm(0x7E7E)));
+            code.push(print(PrintKind::MemDs(0x10040)));
+            code.push(print(PrintKind::Reg));
+            v.push(Case { site: "print mem : n".into(), prog: Program { data: mem_data(), code }, spelling: None, stdin: vec![], interpreted: false, note: format!("DS=0x{:04X}, 65601 bytes", ds) });
+        }
     }
     v
 }
@@ -253,6 +269,13 @@ fn prompt_commands() -> Vec<String> {
             v.push(format!("print mem : {}", fmt(n, r)));
             v.push(format!("print mem :{}", fmt(n, r)));
         }
+    }
+    // commands longer than 256 and 4096 bytes (padding blanks, zero-padded numbers)
+    for pad in [250usize, 300, 5000] {
+        v.push(format!("print mem 0 ->{}15", " ".repeat(pad)));
+        v.push(format!("print mem {}16 : {}3", "0".repeat(pad), "0".repeat(pad)));
+        v.push(format!("print{}reg", " ".repeat(pad)));
+        v.push(format!("print mem :{}31", "\t".repeat(pad)));
     }
     // reported instead of printed
     for s in [
@@ -416,7 +439,7 @@ pub fn run(tier: &Tier) -> i32 {
     }
     let mut cov = Coverage::default();
     cov.exhaustive = true;
-    cov.rule = "every run is the real binary; stdout is parsed back field by field (12 registers as four upper-case hex digits, nine flags as 0/1, memory as two-digit upper-case hex cells in rows of 16) and compared with the reference interpreter's machine state at that point. Register group: 11 rotations of 11 distinct values over the 11 settable registers (each register holds each value once). Flag group: all 512 combinations of the nine flags loaded through POPF (TF combinations are single-stepped with 'n'). Memory group: 8 starts x 10 lengths (0,1,2,15,16,17,31,32,33,64) for 'a -> b' and 'a : n' incl. ranges ending at 0xFFFFF, backwards ranges, DS-relative ranges for DS over the segment lattice incl. ranges leaving the space, each in 5 spellings (decimal, 0x, 0X + upper-case keywords, 0b, upper-case). Prompt group: every command of a 100+ command alphabet (4 radices, spacing and case variants, reported ranges, constants beyond 2^20 and beyond 2^64) typed alone / repeated / all in one script at an INT 3 prompt, at each single-step prompt of -i mode, and under the trap flag; after every prompt the program prints registers, flags and memory again, so any change caused by printing is visible".into();
+    cov.rule = "every run is the real binary; stdout is parsed back field by field (12 registers as four upper-case hex digits, nine flags as 0/1, memory as two-digit upper-case hex cells in rows of 16) and compared with the reference interpreter's machine state at that point. Register group: 11 rotations of 11 distinct values over the 11 settable registers (each register holds each value once). Flag group: all 512 combinations of the nine flags loaded through POPF (TF combinations are single-stepped with 'n'). Memory group (every second run under DS=0x1000: absolute ranges must not depend on DS): 10 starts x 10 lengths (0,1,2,15,16,17,31,32,33,64) for 'a -> b' and 'a : n' incl. ranges ending at 0xFFFFF, backwards ranges, DS-relative ranges for DS over the segment lattice incl. ranges leaving the space and ranges longer than 64 KiB, each in 5 spellings (decimal, 0x, 0X + upper-case keywords, 0b, upper-case). Prompt group: every command of a 100+ command alphabet (4 radices, spacing and case variants, commands padded beyond 256 and 4096 bytes, reported ranges, constants beyond 2^20 and beyond 2^64) typed alone / repeated / all in one script at an INT 3 prompt, at each single-step prompt of -i mode, and under the trap flag; after every prompt the program prints registers, flags and memory again, so any change caused by printing is visible".into();
     cov.bounds = json!({"register_flag_runs": n_regflag, "memory_runs": n_mem, "prompt_runs": n_prompt, "program_prints_checked": prints.load(Ordering::Relaxed), "prompt_prints_checked": prompt_prints.load(Ordering::Relaxed), "range_reports_checked": reports.load(Ordering::Relaxed), "memory_cells_checked": cells.load(Ordering::Relaxed), "tier": tier.name()});
     cov.assumptions = common_assumptions();
     cov.assumptions.push("messages are parsed tolerantly: `XX : 0xHHHH`, `XF : [01]`, rows of two-digit hex cells; a range report is any non-empty line without cells".into());
